@@ -303,6 +303,7 @@ type deferredCall struct {
 }
 
 type Frame struct {
+	softAtCall bool
 	deferred []deferredCall
 	enc      *Enc
 	fn       *ssa.Function
